@@ -255,6 +255,7 @@ def prune_spec(prop):
 
 
 def install(it, prop):
+    it.quantified = True
     it.env_models["clock"] = clock_model(lambda it_: it_.path.ghost["world"])
     it.loop_specs[(KEY + "._prune", 1)] = prune_spec(prop)
     stdlib.trusted("CircuitBreaker clock", "A3 for the user-supplied clock: non-decreasing, does not raise, "
